@@ -251,9 +251,12 @@ func (ex *Exec) chanSend(fr *frame, c *Chan, v Value) {
 		ex.block(func() bool { return false }, "send on nil channel")
 	}
 	if c.Cap == 0 {
-		ex.abort("unbuffered channels are not modelled")
+		// unbuffered: the value is handed to a receiver that is already waiting (the sender does not wait for
+		// the hand-over to complete - the receiver is committed, so this only drops a happens-before edge)
+		ex.block(func() bool { return c.Closed || c.recvWaiting > len(c.Buf) }, fmt.Sprintf("send on unbuffered channel #%d with no receiver", c.id))
+	} else {
+		ex.block(func() bool { return c.Closed || len(c.Buf) < c.Cap }, fmt.Sprintf("send on full channel #%d", c.id))
 	}
-	ex.block(func() bool { return c.Closed || len(c.Buf) < c.Cap }, fmt.Sprintf("send on full channel #%d", c.id))
 	if c.Closed {
 		panic(&goPanic{V: Iface{T: types.Typ[types.String], V: "send on closed channel"}, Runtime: true, Msg: "send on closed channel"})
 	}
@@ -268,7 +271,9 @@ func (ex *Exec) chanRecv(fr *frame, c *Chan, commaOk bool, elem types.Type) Valu
 	if c == nil {
 		ex.block(func() bool { return false }, "receive on nil channel")
 	}
+	c.recvWaiting++
 	ex.block(func() bool { return c.Closed || len(c.Buf) > 0 }, fmt.Sprintf("receive on empty channel #%d", c.id))
+	c.recvWaiting--
 	var v Value
 	ok := false
 	if len(c.Buf) > 0 {
